@@ -135,9 +135,13 @@ def float_corr(refs, x):
         return out
     xc = x - x.mean()
     nx = math.sqrt(float((xc * xc).sum()))
+    if np.ptp(x) == 0:
+        nx = 0.0          # a constant row, whatever its float mean
     for i in range(refs.shape[0]):
         yc = refs[i] - refs[i].mean()
         ny = math.sqrt(float((yc * yc).sum()))
+        if np.ptp(refs[i]) == 0:
+            ny = 0.0
         if nx == 0.0 or ny == 0.0:
             out[i] = 0.0
         else:
